@@ -638,7 +638,81 @@ func genMPEGTS(r *rng.R) (Desc, bool) {
 		liveParams(r, &d, &st, d.Leading.FirstLen)
 		d.Rends = append(d.Rends, st)
 	}
+	genUnsupported(r, &d)
 	return d, true
+}
+
+var unsupCodecs = []string{"mp3", "ac3", "opus", "h265", "mpeg4video", "mpeg1video"}
+
+// genUnsupported adds 0..2 elementary streams the client does not support to the PMT of every
+// MPEG-TS playlist, at arbitrary positions (before / between / after the supported ones), with
+// or without PES data of their own. Drawn after everything else, so that the supported content
+// of a (seed, index) is what it was before this dimension existed.
+//
+// Constraints that keep the stream well-formed for mediacommon's Reader (they are the muxer's
+// and demultiplexer's business, not the client's): the very first PES of a playlist belongs to
+// a supported stream (the first stream written carries the PCR and decides where PAT/PMT are
+// repeated: at each of its random-access PES, i.e. at every segment start as before); AC-3
+// parameters are read from PES data, so an AC-3 stream has data after the tables of every
+// segment a Client may start from.
+func genUnsupported(r *rng.R, d *Desc) {
+	nextID := 0
+	for _, st := range d.streams() {
+		for _, sg := range st.Segs {
+			for _, p := range sg.PES {
+				if p.ID >= nextID {
+					nextID = p.ID + 1
+				}
+			}
+		}
+	}
+	for _, st := range d.streams() {
+		n := r.Pick(5, 3, 2)
+		vi := -1
+		for i, t := range st.Tracks {
+			if t.isVideo() {
+				vi = i
+				break
+			}
+		}
+		for x := 0; x < n; x++ {
+			codec := unsupCodecs[r.Pick(4, 2, 2, 2, 1, 1)]
+			var before int
+			if vi >= 0 && r.Bool(1, 2) {
+				before = r.Intn(vi + 1) // before the H264 entry
+			} else {
+				before = r.Intn(len(st.Tracks) + 1)
+			}
+			st.Unsup = append(st.Unsup, UnsupDesc{Codec: codec, Before: before})
+			mode := r.Pick(3, 5, 3) // no PES data | in every segment | in some segments
+			if codec == "ac3" {
+				mode = 1
+			}
+			for k := range st.Segs {
+				sg := &st.Segs[k]
+				if mode == 0 || (mode == 2 && r.Bool(1, 2)) || len(sg.PES) == 0 {
+					continue
+				}
+				cnt := 1 + r.Intn(3)
+				for c := 0; c < cnt; c++ {
+					after := r.Intn(len(sg.PES) + 1)
+					if after == 0 && (k == 0 || (codec == "ac3" && c == 0)) {
+						after = 1
+					}
+					ref := sg.PES[len(sg.PES)-1]
+					if after < len(sg.PES) {
+						ref = sg.PES[after]
+					}
+					pts := ref.DTS + r.Range(-2000, 2000)
+					if pts < 0 {
+						pts = 0
+					}
+					sg.XPES = append(sg.XPES, XPESDesc{X: x, After: after, PTS: pts, ID: nextID})
+					nextID++
+				}
+			}
+		}
+	}
 }
 
 // genDesc draws a description from (seed, index); generation attempts that do not yield a
